@@ -1,2 +1,47 @@
--- stub: replaced by the component's line-protocol driver
-def main : IO Unit := pure ()
+import CelmaVerif.Base.Proto
+import CelmaVerif.Model.LogFiles
+/- line-protocol driver for the rolling log files component (C15) -/
+open CelmaVerif CelmaVerif.LogFiles CelmaVerif.Proto
+
+structure St where
+  w : Option World := none
+
+/-- every file with a generation number below 100, oldest first (the harness lists the directory) -/
+def listing (fs : Fs) : String :=
+  let files := (List.range 100).reverse.filterMap fs.get
+  let parts := files.map (fun f => hexOut (fileContent f))
+  s!"n={files.length}" ++ (if parts.isEmpty then "" else " " ++ String.intercalate "|" parts)
+
+def outcome (w : World) : Res Unit → String
+  | .ok _ => "ok " ++ listing w.fs
+  | .throw e => s!"throw {e.name} " ++ listing w.fs
+  | .oob x => s!"oob {x}"
+
+def step (s : St) (line : String) : St × String :=
+  match tokens line with
+  | ["case", _] => ({}, "ok")
+  | ["start", kind, limit, gens] =>
+    match s.w, (if kind == "counted" then some Kind.counted else if kind == "maxsize" then some Kind.maxsize else none),
+          limit.toNat?, gens.toNat? with
+    | none, some k, some l, some g =>
+      let (w, r) := start ⟨k, l, g⟩ emptyFs
+      ({ w := some w }, outcome w r)
+    | _, _, _, _ => (s, "bad-op")
+  | ["write", hx] =>
+    match s.w, hexDecode hx with
+    | some w, some m =>
+      match w.pol with
+      | none => (s, "bad-op")
+      | some _ =>
+        let (w', r) := w.step (.write m)
+        ({ w := some w' }, outcome w' r)
+    | _, _ => (s, "bad-op")
+  | ["restart"] =>
+    match s.w with
+    | some w =>
+      let (w', r) := w.step .restart
+      ({ w := some w' }, outcome w' r)
+    | none => (s, "bad-op")
+  | _ => (s, "bad-op")
+
+def main : IO Unit := Proto.run ({} : St) step
